@@ -80,10 +80,12 @@ pub fn walk_script(r: &mut Rng, nent: usize) -> Value {
             _ => r.below(4),
         }
     };
+    // sometimes: run off the end first, then look at the iterator ({:?}, size_hint) before the consuming call
+    if r.chance(1, 6) { w.push(json!(["nth", w8(u64::MAX - r.below(2))])); w.push(json!(["debug", w8(0)])); }
     for _ in 0..r.below(4) {
         match r.below(5) {
             0 | 1 => w.push(json!(["next", w8(0)])),
-            2 => w.push(json!(["size_hint", w8(0)])),
+            2 => w.push(json!([*r.pick(&["size_hint", "debug"]), w8(0)])),
             _ => { let k = kk(r); w.push(json!(["nth", w8(k)])); }
         }
     }
